@@ -1,6 +1,7 @@
 // Package c15: file-based loading maps names to definition files faithfully (property C15).
 //
-// ops: `tree` (model + implementation) and `@forked` (implementation only; the same arguments, every lookup made under a
+// ops: `tree` (model + implementation), `@strict` (implementation only: the same op judged with the demands the known
+// findings fail) and `@forked` (implementation only; the same arguments, every lookup made under a
 // fresh child loader of the context's loader — what a forked context has), plus `tn` / `ep` (path.go):
 //
 //	tree <mods> <files> <via> <lookups>
@@ -574,9 +575,13 @@ func (w *world) run(c px.Context, l lookup) (o outcome) {
 }
 
 func exec(c px.Context, op string, args []sx.Sexp) core.Result {
-	forked := false
+	forked, strict := false, false
 	switch op {
 	case "tree":
+	case "strict":
+		// implementation-only (`@C15 strict …`): a `tree` op judged with the two demands the known findings fail (a line
+		// for a misnamed file, no redefinition error for a name defined twice)
+		strict = true
 	case "forked":
 		// implementation-only (`@C15 forked …`): every lookup runs under a fresh px.NewParentedLoader(via), the loader a
 		// forked context (pcore.DoWithParent, px.Fork) has
@@ -623,7 +628,7 @@ func exec(c px.Context, op string, args []sx.Sexp) core.Result {
 	for _, p := range paths {
 		out += fmt.Sprintf(" %s=%d", p, total[p])
 	}
-	res := judge(s, outs, total, out)
+	res := judge(s, outs, total, out, strict)
 	if forked {
 		// the same oracle; a definition that is lost with the fork that loaded it gets its own class
 		for _, c := range []string{"missing-with-file", "case-sensitive", "unstable"} {
